@@ -156,3 +156,51 @@ def c18_xcheck(pid, tier, seed, work):
              samples, extra=extra, harness_errors=errs[:5], violations=list(viols.values()))
     r["_wall"] = time.time() - t
     return r
+
+
+def c13_xcheck(pid, tier, seed, work):
+    """CPython json.loads judges the reference recogniser (accept/reject and value) on the dumped sample.
+    Whitelisted differences: CPython accepts unpaired surrogate escapes and has no depth limit of 256;
+    such cases are not dumped (flags) or cannot occur in the sample (depth)."""
+    import json as pj
+    t = time.time()
+    path = os.path.join(work, "xcheck", "C13.tsv")
+    if not os.path.exists(path):
+        return _res(0, 0, "", [], harness_errors=["no cross-check file from hv c13"])
+
+    def bad_const(x):
+        raise ValueError("constant " + x)
+
+    def loads(s):
+        return pj.loads(s, parse_constant=bad_const, parse_int=float, object_pairs_hook=lambda kv: ("obj", kv))
+
+    errs = []
+    n = acc = 0
+    distinct = set()
+    samples = []
+    for line in open(path):
+        th, verdict, ch = line.rstrip("\n").split("\t")
+        text = bytes.fromhex(th).decode("utf-8")
+        n += 1
+        distinct.add(th)
+        try:
+            v = loads(text)
+            ok = True
+        except (ValueError, RecursionError):
+            ok = False
+        # json.loads strips no BOM and accepts only JSON whitespace: same as RFC 8259
+        if ok != (verdict == "ok"):
+            errs.append("recogniser says %s, json.loads says %s for %r" % (verdict, "ok" if ok else "err", text[:80]))
+            continue
+        if ok:
+            acc += 1
+            want = loads(bytes.fromhex(ch).decode())
+            if v != want and not (v != v):
+                errs.append("recogniser value differs from json.loads for %r" % text[:80])
+        if len(samples) < 3 and ok and len(text) > 6:
+            samples.append({"text": text[:100], "json.loads": "accept", "recogniser": verdict})
+    os.remove(path)
+    r = _res(n, len(distinct), "reference recogniser vs CPython json.loads(parse_constant raising) on %d dumped texts (verdict and value)" % n,
+             samples, extra={"xcheck_texts": n, "xcheck_accepted": acc}, harness_errors=errs[:5])
+    r["_wall"] = time.time() - t
+    return r
